@@ -1,5 +1,5 @@
 PROPERTY = 'C17'
-MCXX = ['-D__TBBMALLOC_BUILD=1', '-fno-rtti', '-I/repo/src/tbbmalloc', '-I/repo/src']
+MCXX = ['-D__TBBMALLOC_BUILD=1', '-fno-rtti', '-I{REPO}/src/tbbmalloc', '-I{REPO}/src']
 CLASSES = [8, 16, 32, 48, 64, 80, 96, 112, 128, 160, 192, 224, 256, 320, 384, 448, 512, 640, 768, 896, 1024, 1792, 2688, 4032, 5376, 8128]
 UNITS = {
   'front': dict(wrapper='w_front.cpp', mode='seq', cxxflags=MCXX, selftest=True,
